@@ -16,4 +16,24 @@ theorem feasible_solution_optQubo_eq_objective (d : MPData) (rho : ℚ) (x : Vec
     quad d.n (d.quboQ rho false) x + d.quboK rho = d.objective x := by
   rw [C02.getQubo_energy d rho false x hx, (C03.penalty_zero_iff d x hx).2 hf]; simp
 
+/-! ## non-vacuity -/
+
+/-- the hypotheses (binary, feasible) hold for the vector `C03.nv_x` of the arc-based program `C03.nv_I`
+    (reachable graph, 9 variables, 5 rows); conclusions: feasibility QUBO 0, optimisation QUBO = cost 4 -/
+example : quad C03.nv_I.data.n (C03.nv_I.data.quboQ (defaultRho 128 true) true) C03.nv_x
+    + C03.nv_I.data.quboK (defaultRho 128 true) = 0 :=
+  feasible_solution_feasQubo_zero _ 128 _ C03.nv_x_bin (by decide +kernel)
+
+example : quad C03.nv_I.data.n (C03.nv_I.data.quboQ 129 false) C03.nv_x + C03.nv_I.data.quboK 129 = 4 := by
+  rw [feasible_solution_optQubo_eq_objective _ 129 _ C03.nv_x_bin (by decide +kernel)]; decide +kernel
+
+/-- reading off the value of a heuristic's reply (used by the non-vacuity sections of C09b–C09e to exhibit
+    `J, sol` with `makeFeasible … = .ok (J, sol)` by evaluation) -/
+def nv_val {α : Type} (r : Except Err α) (dflt : α) : α := match r with | .ok a => a | .error _ => dflt
+
+theorem nv_val_eq {α : Type} (r : Except Err α) (dflt : α) (h : r.toBool = true) : r = .ok (nv_val r dflt) := by
+  cases r with
+  | ok a => rfl
+  | error e => cases h
+
 end Vrp.C09
